@@ -257,10 +257,43 @@ fn gen_rules() -> BoxedStrategy<Value> {
     gen::case2(rules::rooted(cfg), gen::data_docs())
 }
 
+
+/// accumulated state: see common::sweep
+fn sweep_item(kind: u64, k: usize) -> (Value, Value) {
+    match kind % 2 {
+        0 => (json!({"in": [format!("n{}", k), {"var": "h"}]}), json!({"h": [format!("n{}", k + (k % 3 == 0) as usize), "x"]})),
+        _ => (json!({"merge": [[k], format!("s{}", k), [[k]]]}), Value::Null),
+    }
+}
+
+fn check_state_sweep(case: &Value, obs: &mut Obs) -> Result<(), String> {
+    let w = case["w"].as_u64().unwrap_or(1) as usize;
+    let kind = case["kind"].as_u64().unwrap_or(0);
+    sweep(w, &|k| sweep_item(kind, k), obs)?;
+    obs.nt(&format!("sweep kind {} W {}", kind, if w < 64 { "<64" } else if w < 128 { "64-127" } else { "128+" }));
+    Ok(())
+}
+
+fn fixed_state_sweeps() -> Vec<Value> {
+    sweep_cases(2, 160)
+}
+
 pub fn property() -> Property {
     Property {
         id: "C15",
         subs: vec![
+            Sub {
+                name: "state_sweep",
+                about: "accumulated state: for every W in 1..160 and each kind of keyed work of this operator family (distinct needles in data haystacks, distinct merges), W hot items are evaluated twice, then a new item, the hot set again, another new item, and everything in reverse; every call against the reference model - a cache, pool or table with any capacity up to 160 is driven exactly over its boundary.",
+                nontrivial: "every case.",
+                strategy: None,
+                fixed: Some(fixed_state_sweeps),
+                fixed_exhaustive: false,
+                check: check_state_sweep,
+                quick: 0,
+                thorough: 0,
+                small_stack: false,
+            },
             Sub {
                 name: "merge",
                 about: "generated operand lists (arrays nested 0-3 deep, scalars, null, empties, operation-shaped values as data): model, and model-free laws length = sum(array lengths) + #non-arrays, order preserved, inner arrays and spellings intact; literal, var and bracket-less routes.",
